@@ -101,9 +101,10 @@ class C07(Prop):
             for i in which:
                 steps.append({"t": "node", "id": i, "health": kind})
             down = which
-            if rng.random() < 0.4:
+            if len(which) == nn and rng.random() < 0.5:
                 # other operations meet the failure first (they may raise - they are not reads); the reads that
-                # follow must still behave
+                # follow must still behave.  Only when every server is down: otherwise such an operation reaches
+                # some servers and not others, and the faulted world no longer has a fault-free twin to compare with
                 for _ in range(rng.randint(1, 2)):
                     nm = rng.choice(["flush_all", "flush_all", "delete", "delete_many", "touch"])   # nothing that stores
                     na = {"flush_all": [], "delete": [E(keys[0])],
